@@ -826,6 +826,7 @@ def _check_h(D, h, invs, tag=""):
 _GT_CACHE = {}
 _EST_PRIMES = []
 _RATE = {"n": 0, "bad": 0}
+_COV = {"lines": 0, "lines_with_coords": 0}
 
 
 def analytic_estimate(D):
@@ -839,6 +840,40 @@ def analytic_estimate(D):
         if chi:
             lg -= math.log1p(-chi / p)
     return math.sqrt(-D) / math.pi * math.exp(lg)
+
+
+def lattice_is_full(rows, k):
+    """do the integer vectors `rows` (length k) generate Z^k ?  (own Hermite reduction, column by column)"""
+    rows = [list(r) for r in rows if any(r)]
+    for c in range(k):
+        piv = None
+        while True:
+            nz = [r for r in rows if r[c] != 0 and all(x == 0 for x in r[:c])]
+            if not nz:
+                return False
+            piv = min(nz, key=lambda r: abs(r[c]))
+            done = True
+            for r in nz:
+                if r is piv:
+                    continue
+                q = r[c] // piv[c]
+                if q:
+                    for j in range(c, k):
+                        r[j] -= q * piv[j]
+                if r[c] != 0:
+                    done = False
+            if done:
+                break
+        if abs(piv[c]) != 1:
+            return False
+        # clear the column in every other row (keeps the lattice)
+        for r in rows:
+            if r is not piv and r[c] != 0:
+                q = r[c] // piv[c]
+                for j in range(c, k):
+                    r[j] -= q * piv[j]
+        rows = [r for r in rows if r is not piv and any(r)]
+    return True
 
 
 def _line_entries(s):
@@ -864,16 +899,23 @@ def _check_lines(D, lines, what):
     return None
 
 
-def parse_full(ans):
-    hs, gens, rels, files = ans.split(" | ")
-    h, invs = _parse_h(hs)
+def _coords(text):
     g = []
-    if gens != "-":
-        for t in gens.split(";"):
+    if text != "-":
+        for t in text.split(";"):
             p, v = t.split(":")
             g.append((int(p), [] if v == "-" else [int(x) for x in v.split(",")]))
+    return g
+
+
+def parse_full(ans):
+    parts = ans.split(" | ")
+    hs, gens, rels, files = parts[:4]
+    h, invs = _parse_h(hs)
+    g = _coords(gens)
     lines = [] if rels == "-" else [_line_entries(t) for t in rels.split(";")]
-    return h, invs, g, lines, files
+    extra = _coords(parts[4][6:]) if len(parts) > 4 and parts[4].startswith("extra=") else []
+    return h, invs, g, lines, files, extra
 
 
 def parse_poly(ans):
@@ -941,7 +983,7 @@ def oracle(case, ans):
         h, invs = _parse_h(ans)
         return _check_h(D, h, invs, case.tag)
     if op == "cg_full":
-        h, invs, gens, lines, files = parse_full(ans)
+        h, invs, gens, lines, files, extra = parse_full(ans)
         msg = _check_h(D, h, invs, case.tag)
         if msg:
             return msg
@@ -953,18 +995,26 @@ def oracle(case, ans):
         if msg:
             return msg
         # coordinates: every emitted relation supported on the generators maps to 0, orders agree with the forms
-        coords = dict(gens)
-        for p, v in gens:
+        coords = dict(extra)
+        coords.update(dict(gens))
+        for p, v in list(gens) + list(extra):
             if len(v) != len(invs):
-                return f"D = {D}: generator {p} has {len(v)} coordinates for {len(invs)} cyclic factors"
+                return f"D = {D}: prime {p} has {len(v)} coordinates for {len(invs)} cyclic factors"
+        _COV["lines"] += len(lines)
         for i, ent in enumerate(lines):
             if all(abs(x) in coords for x in ent):
+                _COV["lines_with_coords"] += 1
                 for j, d in enumerate(invs):
                     if sum((1 if x > 0 else -1) * coords[abs(x)][j] for x in ent) % d:
                         return f"D = {D}: coordinates do not kill relation line {i}: {ent}"
+        # the coordinates generate the whole product of cyclic groups
+        k = len(invs)
+        if k and not lattice_is_full([v for _, v in list(gens) + list(extra)] +
+                                     [[d if i == j else 0 for j in range(k)] for i, d in enumerate(invs)], k):
+            return f"D = {D}: the reported coordinates do not generate the product of the cyclic groups {invs}"
         hfac = factor_small(h) if h < (1 << 40) else None
         if hfac:
-            for p, v in gens[:6]:
+            for p, v in list(gens[:6]) + list(extra[:4]):
                 o = 1
                 for j, d in enumerate(invs):
                     oj = d // math.gcd(d, v[j])
@@ -1083,6 +1133,17 @@ def oracle_history(case, ans):
     for v in list(par2):
         if find2(v) != find2(1):
             return f"large prime {v} of an emitted relation is not connected to the root through emitted relations"
+    # ... and lies on a cycle: it occurs in at least two emitted relations (otherwise the relation can never
+    # take part in a combination that is free of large primes)
+    deg = {}
+    for s_ in emitted:
+        fs, l1, l2 = parse_rel(s_)
+        for l in (l1, l2):
+            if l is not None:
+                deg[l[0]] = deg.get(l[0], 0) + 1
+    for v, d in deg.items():
+        if d < 2 and v != 1:
+            return f"large prime {v} occurs in only one emitted relation (the tree path that closes its cycle was not emitted)"
     # written lines = emitted relations in the documented format
     lines = [] if parts[5] == "lines=-" else parts[5][6:].split(";")
     want = [",".join(map(str, _rel_entries(*parse_rel(s)))) or "e" for s in emitted]
@@ -1141,7 +1202,7 @@ def followup(case, ans):
         return None
     if op == "cg_full":
         D = int(case.args[0])
-        h, invs, gens, lines, files = parse_full(ans)
+        h, invs, gens, lines, files, extra = parse_full(ans)
         hflag = 1 if -D < 3000000 else 0
         step = max(1, len(lines) // MAX_FU_LINES)
         trs = []
@@ -1234,6 +1295,12 @@ def klass(case, ans):
     return base + bad
 
 
+def extra_coverage():
+    return {"relation_lines_checked_by_form_arithmetic": _COV["lines"],
+            "relation_lines_checked_against_reported_coordinates": _COV["lines_with_coords"],
+            "classgroup_calls": _RATE["n"], "classgroup_calls_without_result": _RATE["bad"]}
+
+
 def nontrivial(case, ans):
     return ans not in ("panic", "abort", "hang", "?", "none")
 
@@ -1243,7 +1310,7 @@ def finding_key(case, ans, profile):
 
 
 THEOREMS = ["Ymq.C18." + t for t in (
-    "b_plus_unique bPlus_spec_odd bPlus_spec_even sign_total sign_exclusive large_sign_consistent poly_factors_total relation_no_panic "
+    "b_plus_unique parity_exactly_one bPlus_spec_odd bPlus_spec_even sign_total sign_exclusive large_sign_consistent poly_factors_total relation_no_panic "
     "emitted_subset_inputs complete_relations_emitted store_total emit_hom emit_hom_map relLine_val "
     "reduced_enum_sound reduced_enum_complete reduced_enum_nodup reduced_enum invariants_multiply invariantsOk_spec").split()]
 HYPOTHESES = [
@@ -1285,20 +1352,25 @@ UNMODELLED = [
 ]
 CLAIM = ("PARTIAL. Proved in Lean, for all inputs, about models tied to the code by differential runs: (1) the sign convention is well defined: "
          "for every prime p there is exactly one normalised root b (0 <= b <= p, b = D mod 2, b^2 = D mod 4p), Prime::b_plus returns it for "
-         "both polynomial types, and the sign decision of sieve_block_poly is total and exclusive (b mod p is b_plus or p - b_plus whenever p divides "
-         "the polynomial value); (2) the relation store only ever emits relations it was given, for every history of add calls (spanning tree of "
-         "large primes included), hence any homomorphism to an abelian group that kills the sieved relations kills every line of relations.sieve; "
-         "(3) the reference enumeration of reduced primitive forms is exact (sound, complete, duplicate free), so `classNumber D` is the number "
-         "of reduced primitive forms; (4) the reported cyclic factors multiply to the reported class number whenever the Smith diagonal does. "
-         "NOT proved, explored only: that the analytic estimate pins the right multiple (every reported class number is compared with an "
-         "independent reduced-form count: exhaustively below the tier bound, randomly up to 2^40/2^44) and that sieved relations are genuine "
-         "(every line of relations.sieve of the sampled runs up to 128 bits is recomputed with independent form arithmetic; group invariants are "
-         "compared with the orders of all reduced forms for small h, 2-ranks with genus theory, generator coordinates with true element orders).")
+         "both polynomial types; the sign decision of sieve_block_poly and Poly::factors is total and exclusive (b mod p is b_plus or p - b_plus "
+         "whenever p divides the polynomial value, the large prime parity rule is the same convention), and no panic site of the whole relation "
+         "construction is reachable on a positive definite polynomial with a correct factor base (relation_no_panic); (2) the relation store "
+         "only ever emits relations it was given, never loses a complete relation, and never panics, for every history of add calls (spanning "
+         "tree of large primes included; the recursion of update_tree terminates), hence any homomorphism to an abelian group that kills the "
+         "sieved relations kills every line of relations.sieve (emit_hom, relLine_val); (3) the reference enumeration of reduced primitive forms "
+         "is exact (sound, complete, duplicate free), so `classNumber D` is the number of reduced primitive forms; (4) the reported cyclic factors "
+         "multiply to the reported class number whenever the Smith diagonal does. NOT proved, explored only: that the analytic estimate pins the "
+         "right multiple (every reported class number is compared with an independent reduced-form count: exhaustively below the tier bound, "
+         "randomly up to 2^40/2^44) and that sieved relations are genuine (every line of relations.sieve of the sampled runs up to 128 bits, with "
+         "and without thread pool and double large primes, is recomputed with independent form arithmetic and mapped to 0 by the reported "
+         "coordinates; group invariants are compared with the orders of all reduced forms for small h, 2-ranks with genus theory, generator "
+         "coordinates with true element orders, the coordinates must generate the reported product of cyclic groups).")
 LEVEL_NOTE = ("Partial by nature: the user-visible guarantee (h is the class number, the group is the class group) rests on an f64 Euler product "
               "and on ideal arithmetic; neither is a theorem here. What is proved is the bookkeeping around them (sign convention uniqueness and "
-              "totality, relation store = subset of inputs for all histories, exactness of the reference enumeration, product of invariants). "
-              "`number of reduced primitive forms = class number` is a named definition/hypothesis. Trusted: Lean kernel (+propext, "
+              "totality, relation store = subset of inputs for all histories + totality, exactness of the reference enumeration, product of "
+              "invariants). `number of reduced primitive forms = class number` is a named definition/hypothesis. Trusted: Lean kernel (+propext, "
               "Classical.choice, Quot.sound), the hand models' correspondence to the Rust code (sampled: b_plus, relation store histories incl. the "
               "private tree through a hook, the sign decision replayed on real sieve output through a per-polynomial hook), Python integers in the "
-              "oracle. A panic/refusal of classgroup() is not a wrong result and is only counted.")
+              "oracle. A panic/refusal of classgroup() is not a wrong result and is only counted (a vacuity guard fails the check when more than half "
+              "of the calls give no result). group_structure_sparse (|D| beyond ~256 bits or factor bases > 800) returns no invariants and is not reached.")
 TECHNIQUE = "Lean 4 proof about a hand model + differential correspondence check + spec oracle (independent class numbers and form arithmetic)"
